@@ -84,9 +84,9 @@ JudgeP1(c, i, e) ==
   \cup
   CASE s.k = "label" -> IF e.val # e.locB \/ d # 0 \/ e.ocA # e.ocB THEN {Mk(<<"C03">>, "label value is not the location counter")} ELSE {}
     [] s.k \in {"equ", "cfg", "global", "extern"} ->
-         IF d # 0 \/ e.ocA # e.ocB THEN {Mk(<<"C05", "C11">>, "directive emitted or moved LOC")} ELSE {}
+         IF d # 0 \/ e.ocA # e.ocB THEN {Mk(<<"C03", "C05", "C11">>, "directive emitted or moved LOC")} ELSE {}
     [] s.k = "bits" ->
-         (IF d # 0 \/ e.ocA # e.ocB THEN {Mk(<<"C05">>, "directive emitted or moved LOC")} ELSE {})
+         (IF d # 0 \/ e.ocA # e.ocB THEN {Mk(<<"C03", "C05">>, "directive emitted or moved LOC")} ELSE {})
          \cup (IF e.bitsA # s.v THEN {Mk(<<"C17">>, "BITS did not set the mode")} ELSE {})
     [] s.k = "org" ->
          IF e.locA # s.v \/ e.dolA # s.v \/ e.ocA # e.ocB THEN {Mk(<<"C16", "C03", "C05">>, "ORG")} ELSE {}
@@ -225,6 +225,14 @@ JudgeEnd(c, e) ==
                        isequ == s.tgt.t = "l" /\ s.tgt.nm \notin DOMAIN c.sym /\ s.tgt.nm \in DOMAIN EquAt(c, j) /\ Defined(EquAt(c, j)[s.tgt.nm], P1Env(j))
                    IN
                    /\ (s.tgt.t = "n" \/ s.tgt.nm \in DOMAIN c.sym \/ isequ)
+                   \* the finding is about BRANCH sizes: it explains a miss only if every mis-sized statement between the branch
+                   \* and its target is itself a branch (a miss caused by any other statement's size is not this finding)
+                   /\ (s.tgt.t = "l" /\ LabIdx(s.tgt.nm) # {} =>
+                         LET t == CHOOSE x \in LabIdx(s.tgt.nm) : TRUE
+                             lo == IF t < j THEN t ELSE j
+                             hi == IF t > j THEN t - 1 ELSE j
+                         IN \A x \in lo..hi : Len(c.sb[x]) = c.psz[x] \/ c.stmts[x].k \in {"br", "org", "label", "alignb"}       \* (padding follows the displaced addresses)
+                                            \/ (c.stmts[x].k = "resb" /\ HasDollar(c.stmts[x].e)))
                    /\ c.psz[j] = GoskJmpEstimateT(s.mn, c.bitsS[j], s.tgt.t = "n")
                    /\ c.sb[j] = GoskBranchBytes(s.mn, c.org + RealOff(j),
                                                 IF s.tgt.t = "n" THEN s.tgt.v ELSE IF isequ THEN Eval(EquAt(c, j)[s.tgt.nm], P1Env(j)) + s.tgt.add ELSE c.sym[s.tgt.nm] + s.tgt.add, c.cgbits[j])
